@@ -286,6 +286,8 @@ def _check_own_parser_carets_impl(args) -> dict:
 		except Exception:
 			continue
 		line_no, quoted, pad, carets = int(m.group(2)), m.group(3), m.group(4), m.group(5)
+		if token == '\\OP_UNARY_MINUS':
+			token = '-'  # the lexer's name for a minus sign that touches its operand: on the line it is one character
 		if token.startswith('\\') or '\n' in token or token == '':
 			continue  # block markers and line breaks have no text of their own on the line
 		nodes += 1
@@ -458,6 +460,8 @@ def run(ctx: Ctx) -> int:
 			'class A:\n\t"""doc\n\tmore"""\n\tdef f(self) -> int:\n\t\treturn 1 2\n', 'x = [\n\t1,\n\t2,\n] ]\n',
 			"x = {'a': 1,\n'b': 2} }\n", 'def f(a: int,\n\tb: int) -> int:\n\treturn a b\n', '# comment\nx = 1 # c\ny = 2 3 # d\n',
 			'x = "\u65e5\u672c\u8a9e" 3\n', 'x = "\u65e5\u672c" + "\u8a9e" )\n',
+			# the offending token is a minus sign that touches what follows
+			'b = (-)\n', 'b = [1, -]\n', 'a = f(-, 1)\n', 'if a:\n\tb = (-)\n',
 		]
 		r5 = list(ex.map(_check_own_parser_carets, [(bad[i::16],) for i in range(16)]))
 		# the line-number axis: the same rejected statements on lines of one, two and three digits (thorough: four)
